@@ -261,6 +261,61 @@ fn macro_alphabet(cfg: &Config, rich: bool) -> Vec<Macro> {
     out
 }
 
+/// Single allocations of the structurally different orders per class (through the first
+/// slot and without slot), one exhausting macro per class, frees and drain: the search
+/// reaches every combination of "which class reserved / stole / demoted which tree"
+fn policy_alphabet(cfg: &Config) -> Vec<Macro> {
+    let spec = &cfg.classing;
+    let mut out = vec![];
+    let mut first_class = None;
+    for &(class, slots) in &spec.classes {
+        first_class.get_or_insert(class);
+        let local = if slots > 0 { Some(0) } else { None };
+        for order in [0, llfree::HUGE_ORDER, TREE_ORDER] {
+            out.push(Macro::Take { n: 1, order, class, local });
+        }
+        if slots > 0 {
+            out.push(Macro::Take { n: 1, order: 0, class, local: None });
+        }
+        out.push(Macro::Exhaust { order: llfree::HUGE_ORDER, class, local });
+    }
+    let c0 = first_class.unwrap_or(0);
+    out.push(Macro::FreeAll { class: c0, local: None, reverse: false });
+    out.push(Macro::FreeEveryOther { class: c0, local: None, phase: 0 });
+    out.push(Macro::Drain);
+    out
+}
+
+pub fn policy_configs(thorough: bool) -> Vec<Config> {
+    let mut specs = vec![
+        ClassingSpec::zeroed([1, 1, 1], 1),
+        ClassingSpec::zeroed([1, 1, 1], 2),
+        ClassingSpec::movable(1),
+    ];
+    if thorough {
+        specs.push(ClassingSpec::zeroed([2, 1, 1], 0));
+        specs.push(ClassingSpec::simple(1));
+        specs.push(ClassingSpec::custom(
+            "invalid-pairs[(0,1),(1,1),(2,1)]d1",
+            &[(0, 1), (1, 1), (2, 1)],
+            1,
+            PolicyKind::InvalidPairs,
+        ));
+    }
+    let mut frames = vec![2 * TREE_FRAMES, 3 * TREE_FRAMES];
+    if thorough {
+        frames.push(2 * TREE_FRAMES + HUGE_FRAMES + 5);
+        frames.push(4 * TREE_FRAMES);
+    }
+    let mut out = vec![];
+    for &n in &frames {
+        for s in &specs {
+            out.push(Config::new(n, s.clone(), InitMode::FreeAll));
+        }
+    }
+    out
+}
+
 impl Runner {
     fn quiet(&mut self, op: Op, col: &mut Collector) -> Res {
         let before = matches!(op, Op::Change { .. }).then(|| oracle::tree_view(&self.sut));
@@ -353,6 +408,9 @@ pub struct MacroParams {
     pub prop: String,
     pub depth: usize,
     pub rich: bool,
+    /// allocation-centred alphabet for the class/policy interplay (small allocators, many
+    /// classes, deeper search)
+    pub policy_alphabet: bool,
     pub probes: Probes,
     pub max_secs: f64,
 }
@@ -361,7 +419,7 @@ fn macro_explore(cfg: &Config, p: &MacroParams, col: &mut Collector) -> MacroSta
     let t0 = Instant::now();
     let mut st = MacroStats { configs: 1, depth: p.depth, ..Default::default() };
     let Some(mut r) = Runner::new(cfg) else { return st };
-    let alphabet = macro_alphabet(cfg, p.rich);
+    let alphabet = if p.policy_alphabet { policy_alphabet(cfg) } else { macro_alphabet(cfg, p.rich) };
     let seq_params = SeqParams {
         prop: p.prop.clone(),
         profile: crate::model::Profile::small(),
@@ -490,4 +548,59 @@ pub fn macro_coverage(st: &MacroStats) -> serde_json::Value {
         "macro_configs": st.configs, "macro_sequences": st.sequences, "macro_states": st.states,
         "macro_basic_calls": st.calls, "macro_depth": st.depth, "macro_configs_capped": st.capped,
         "macro_longest_history_calls": st.max_history_calls})
+}
+
+/// C15 family: tree changes *by search* on allocators with more trees than any search
+/// neighbourhood (9, 12, 17 and 33 trees). For every tree t: every other tree gets one
+/// allocated frame, so that t is the only unreserved entirely free tree; offline by search
+/// must take exactly t, a base allocation must not come from it, online by search must
+/// bring it back, and the tree must be allocatable again.
+pub fn change_by_search_family(col: &mut Collector) -> (u64, u64) {
+    let mut histories = 0u64;
+    let mut calls = 0u64;
+    for trees in [9usize, 12, 17, 33] {
+        if llfree::HUGE_ORDER > 9 && trees > 12 {
+            continue;
+        }
+        for spec in [ClassingSpec::simple(1), ClassingSpec::zeroed([1, 1, 1], 1)] {
+            let cfg = Config::new(trees * TREE_FRAMES, spec.clone(), InitMode::FreeAll);
+            let Some(mut r) = Runner::new(&cfg) else { continue };
+            let class = spec.natural_class(0);
+            // one allocated frame in every tree (no slot: no reservation stays behind)
+            let mut ok = true;
+            for u in 0..trees {
+                let get = Op::Get { order: 0, class, local: None, target: Some(u * TREE_FRAMES + 7) };
+                ok &= matches!(r.quiet(get, col), Res::Got(..));
+            }
+            if !ok {
+                continue;
+            }
+            let base = r.mark();
+            for t in 0..trees {
+                r.reset(&base);
+                histories += 1;
+                let put = Op::Put { frame: t * TREE_FRAMES + 7, order: 0, class, local: None };
+                if r.call(put, false, col) != Res::Done {
+                    continue;
+                }
+                let offline = Op::Change { id: None, mclass: None, mfree: TREE_FRAMES, class: None, op: Some(TreeOp::Offline) };
+                if r.call(offline, false, col) != Res::Done {
+                    continue;
+                }
+                // allocations of every kind while the tree is offline
+                for (order, target) in [(0, None), (llfree::HUGE_ORDER, None), (0, Some(t * TREE_FRAMES + 64))] {
+                    let c = spec.natural_class(order);
+                    r.call(Op::Get { order, class: c, local: None, target }, false, col);
+                }
+                let online = Op::Change { id: None, mclass: None, mfree: 0, class: None, op: Some(TreeOp::Online) };
+                if r.call(online, true, col) != Res::Done {
+                    continue;
+                }
+                let tree_get = Op::Get { order: 0, class, local: None, target: Some(t * TREE_FRAMES + 64) };
+                r.call(tree_get, true, col);
+            }
+            calls += r.calls;
+        }
+    }
+    (histories, calls)
 }
